@@ -232,4 +232,30 @@ def run(repo, rep):
                   f"ethosu/vela/extract_npu_subgraphs.py:{fn}", "subgraph outputs are write protected", "")
     fu = lr.func("_get_ifm_to_fuse")
     rep.check("not inp.tens.ifm_write_protected" in norm(fu), "C03-f", f"{LR}:_get_ifm_to_fuse", "write-protected inputs are never fused with the output", "")
-    rep.floor("C03-f", 5)
+    # graph rewrites that split an operator into several: a tensor cloned from the operator's *input* and then written by a
+    # new operation must get its own identity (set_unique=True); otherwise it shares the input's equivalence id, hence its
+    # address, and the new operation overwrites the input while later consumers still read it
+    go = repo.mod("tflite_graph_optimiser")
+    n_cl = 0
+    for q, fn in go.functions.items():
+        clones = {}
+        for st in ast.walk(fn):
+            if isinstance(st, ast.Assign) and isinstance(st.value, ast.Call) and isinstance(st.value.func, ast.Attribute) and st.value.func.attr == "clone" and isinstance(st.targets[0], ast.Name) \
+                    and norm(st.value.func.value) in ("ifm", "ifm2", "op.ifm", "op.ifm2"):
+                clones[st.targets[0].id] = st.value
+        for c in ast.walk(fn):
+            if isinstance(c, ast.Call) and isinstance(c.func, ast.Attribute) and c.func.attr == "set_output_tensor" and c.args and isinstance(c.args[0], ast.Name) and c.args[0].id in clones:
+                cl = clones[c.args[0].id]
+                uniq = any(k.arg == "set_unique" and try_fold(k.value) is True for k in cl.keywords) or (len(cl.args) >= 2 and try_fold(cl.args[1]) is True)
+                n_cl += 1
+                rep.check(uniq, "C03-f", f"ethosu/vela/tflite_graph_optimiser.py:{q}", f"`{norm(cl)[:70]}` written by `{norm(c)[:50]}` has its own identity (set_unique=True)",
+                          "the clone keeps the input's equivalence id and is allocated on the input's address: the new operation overwrites the input in place although it may have later consumers (e.g. a skip connection)")
+    rep.check(n_cl >= 5, "C03-f", "ethosu/vela/tflite_graph_optimiser.py", "input clones written by decomposed operators found", str(n_cl))
+    rep.floor("C03-f", 10)
+    rep.clause("C03-g", "the IFM area a stripe needs (stripe_input, which sizes the rolling buffers) is computed from the stride / kernel extent of the same axis [rule shared with C15-e]; in-place reuse of an input buffer only for single-consumer inputs [rule shared with C12-d]")
+    from . import c15
+
+    rep.run_borrowed(c15, {'C15-e': 'C03-g'}, repo)
+    from . import c12
+
+    rep.run_borrowed(c12, {'C12-d': 'C03-g'}, repo)
